@@ -3,8 +3,8 @@
 
     Every theorem quantifies over the configuration [b] (backward adjacency on/off) and over ALL
     operation sequences [ops]; [run (init b) ops] is the state they lead to. *)
-From Coq Require Import ZArith List Bool Permutation.
-Import ListNotations.
+From Coq Require Export ZArith List Bool Permutation.
+Export ListNotations.
 From GV Require Export Lpg.Model Lpg.Classes.
 From GV Require Import Lpg.ProofsBase Lpg.ProofsInv Lpg.ProofsLabel Lpg.ProofsIndex Lpg.ProofsCount
   Lpg.ProofsAdj Lpg.ProofsDangling.
@@ -52,7 +52,7 @@ Theorem index_ok : forall b ops key q,
 Proof. intros b ops key q H Hq. destruct (PI_run b ops H) as (B & P & I). apply index_ok_inv; assumption. Qed.
 Print Assumptions index_ok.
 
-(** the behaviour before the repair 115f14a (delete_node left the node in the index) *)
+(** the behaviour before the repair ebcbf15 (delete_node left the node in the index) *)
 Theorem index_ok_pre_refuted : exists ops key q n,
   hist_sets_dead (init true) ops = false /\ has_float_special q = false /\
   In n (find_by_prop (run_pre (init true) ops) key q) /\ ~ In n (scan_by_prop (run_pre (init true) ops) key q).
